@@ -305,3 +305,33 @@ def history_program(rng, length=420, nkeys=330):
             calls.append(_d.mk('z', rng.choice(_d.CLASSES), other, 'bools', NONE_I))
             calls.append({'op': rng.choice(['rand', 'ror_', 'rxor', 'radd', 'and', 'xor', 'add']), 't': 'z', 'xs': [_d.lit(kind, bits)]})
     return {'calls': calls}
+
+
+def long_literal_program(rng, lsb0=False):
+    """one long string literal (whole bytes, >= 1024 bits: past any size gate of a fast path) used again and again -
+    as the left operand of operators on shorter objects, as the first item of a join, as an auto / fromstring
+    constructor argument - with in-place changes to the results in between; what the string means must not move."""
+    n = rng.choice([1024, 1032, 1040, 2048, 2056, 4096])
+    bits = _d.rand_bits(rng, n)
+    kind = rng.choice(['hex', 'bin'])
+    calls = [_d.setopt('lsb0', 1)] if lsb0 else []
+    calls.append(_d.mk('z', rng.choice(_d.CLASSES), _d.rand_bits(rng, rng.choice([1, 6, 8, 16, 100, n])), 'bools', NONE_I))
+    calls.append(_d.mk('sep', rng.choice(_d.CLASSES), _d.rand_bits(rng, rng.choice([1, 3, 8])), 'bools', NONE_I))
+    k = 0
+    for _ in range(rng.randint(4, 8)):
+        k += 1
+        rid = 'r%d' % k
+        r = rng.random()
+        if r < 0.35:
+            calls.append({'op': 'radd', 't': 'z', 'rid': rid,
+                          'xs': [_d.lit(kind, bits)]})
+        elif r < 0.55:
+            calls.append({'op': 'join', 't': 'sep', 'rid': rid, 'xs': [_d.lit(kind, bits), _d.lit('bin', _d.rand_bits(rng, rng.choice([1, 8, 9])))]})
+        elif r < 0.8:
+            cls = rng.choice(_d.CLASSES)
+            calls.append(_d.mk(rid, cls, bits, 'auto_' + kind if rng.random() < 0.7 else 'fromstring', NONE_I))
+            if cls in ('BitArray', 'BitStream') and rng.random() < 0.5:
+                calls.append({'op': 'append', 't': rid, 'xs': [_d.lit('bin', [1, 0, 1])]})
+        else:
+            calls.append({'op': 'eq', 't': 'z', 'xs': [_d.lit(kind, bits)], 'ia': [NONE_I, NONE_I]})
+    return {'calls': calls}
